@@ -67,7 +67,11 @@ func vpRoundTrip(tag string, seg *Segment) {
 // C04 for built segments: every batch of 0..2 documents over all templates.
 func vpH_C04_built() {
 	g := vpNewGen(0)
-	docs := g.batch("b", 0, 2, vpAllTemplates())
+	max := 2
+	if vpThorough() {
+		max = 3
+	}
+	docs := g.batch("b", 0, max, vpAllTemplates())
 	mode := g.mode("b")
 	g.done()
 	if len(docs) == 0 {
@@ -81,8 +85,12 @@ func vpH_C04_built() {
 // C04 for merged segments, including merges that delete everything.
 func vpH_C04_merged() {
 	g := vpNewGen(0)
-	a := g.batch("A", 0, 2, []int{2, 5, 7})
-	b := g.batch("B", 0, 1, []int{2, 5})
+	tplA, tplB, maxB := []int{2, 5, 7}, []int{2, 5}, 1
+	if vpThorough() {
+		tplA, tplB, maxB = vpMergeTemplates, vpMergeTemplates, 2
+	}
+	a := g.batch("A", 0, 2, tplA)
+	b := g.batch("B", 0, maxB, tplB)
 	sa := vpBuild(a, 1025)
 	sb := vpBuild(b, 1)
 	drops := make([]*roaring.Bitmap, 2)
